@@ -318,6 +318,14 @@ class RelationIndex(Model):
                     return PairSet(self.S, fc)
                 return a[1] if len(a) > 1 else None
             return Builtin("dict.get", get)
+        if name == "setdefault":
+            def setdefault(it, fr, a, kw):
+                # dict.setdefault(f, set()): the existing pair set if f is a key, else the empty set is stored and returned
+                fc = self.field_code(it, a[0])
+                if not it.ctx.branch(self.S.relp(fc)):
+                    self.m_setitem(it, a[0], a[1] if len(a) > 1 else None)
+                return PairSet(self.S, fc)
+            return Builtin("dict.setdefault", setdefault)
         raise AssertionError(f"_relation_index.{name} is not modelled")
 
 
@@ -412,6 +420,11 @@ class World:
         self.fields_by_code = {}
         self.materialized = []      # wrapper objects created from symbolic ids
         self.written = {}           # wid term (as str) -> (Obj) wrappers whose fields were mutated by the code
+        # node indices and addresses are Python ints (the model keeps them as terms of uninterpreted sorts)
+        def sterm_isinstance(it, v, c):
+            names = [getattr(x, "name", "") for x in (c if isinstance(c, tuple) else (c,))]
+            return v.t.sort() in (Nd, Ad) and any(n in ("int", "object") for n in names)
+        vm.spec.opaque_hooks.setdefault("sterm_isinstance", sterm_isinstance)
         SGc = vm.loader.cls(SG, "SymbolGraph")
         self.graph_obj = vm.alloc(SGc, {}, tag="symbol-graph")
         g = self.graph_obj
